@@ -191,7 +191,10 @@ def transfer(I, fr, t, c, pth):
 
 
 def run(fx, path, args, inline=None):
-    I = exp.Interp(fx, 'add', inline=inline or (lambda p: False), extra_transfer=transfer, max_steps=2000000)
+    import inline as INL
+    user_inline = inline or (lambda p: False)
+    I = exp.Interp(fx, 'add', inline=lambda p: user_inline(p) or INL.is_private_helper(fx, p), extra_transfer=transfer, max_steps=2000000)
+    I.fork_inlined = True
     res = I.run(path, args)
     return I, res
 
@@ -482,6 +485,7 @@ def rule_wnaf_exp(fx, rep):
                 return transfer(I, fr, t, c, pth)
             I = exp.Interp(fx, 'add', extra_transfer=tr)
             I.binop_hook = hook
+            I.propagate_hooks = True
             # table lookups with HalfIdx: done through Frame projection -> patch: supply the table as a dict-like Agg
             table = TableContract()
             try:
